@@ -11,8 +11,11 @@ EXTENDS UpdateJsonContract, TLC
 CONSTANTS SplitSurrogates,   \* TRUE: each \uXXXX unit is encoded on its own (historical decoding) -- must violate the contract
           Depths             \* nesting depths whose bytes are built here (small); big depths are descriptors
 
-Variants == {"plain", "quote", "backslash", "slash", "b", "f", "n", "r", "t", "u0041", "u00e9", "u00E9", "u20ac", "u0000", "uffff", "ud7ff", "ue000", "pair", "PAIR", "pairmid", "pairmin", "pairmax", "pairpair", "raw2", "raw3", "raw4", "empty"}
-VSrc(x) == CASE x = "plain" -> <<97, 98, 99>>
+Variants == {"u07ff", "u0800", "u0080", "plain", "quote", "backslash", "slash", "b", "f", "n", "r", "t", "u0041", "u00e9", "u00E9", "u20ac", "u0000", "uffff", "ud7ff", "ue000", "pair", "PAIR", "pairmid", "pairmin", "pairmax", "pairpair", "raw2", "raw3", "raw4", "empty"}
+VSrc(x) == CASE x = "u07ff" -> <<92, 117, 48, 55, 102, 102>>
+           [] x = "u0800" -> <<92, 117, 48, 56, 48, 48>>
+           [] x = "u0080" -> <<92, 117, 48, 48, 56, 48>>
+           [] x = "plain" -> <<97, 98, 99>>
            [] x = "quote" -> <<92, 34>>
            [] x = "backslash" -> <<92, 92>>
            [] x = "slash" -> <<92, 47>>
@@ -39,7 +42,10 @@ VSrc(x) == CASE x = "plain" -> <<97, 98, 99>>
            [] x = "raw3" -> <<226, 130, 172>>
            [] x = "raw4" -> <<240, 159, 152, 128>>
            [] x = "empty" -> <<>>
-VVal(x) == CASE x = "plain" -> <<97, 98, 99>>
+VVal(x) == CASE x = "u07ff" -> <<223, 191>>
+           [] x = "u0800" -> <<224, 160, 128>>
+           [] x = "u0080" -> <<194, 128>>
+           [] x = "plain" -> <<97, 98, 99>>
            [] x = "quote" -> <<34>>
            [] x = "backslash" -> <<92>>
            [] x = "slash" -> <<47>>
